@@ -124,9 +124,44 @@ static void op_err(const McArg *a) {
         MC_CHECK((int)e == want, "cellToChildPos(%" PRIx64 ",%d) returned %d, expected %d", h, r, e, want);
     }
 }
-enum { OP_ALL, OP_POS, OP_CHILD, OP_LEAVE, OP_ERR };
-const McOp MC_OPS[] = {{"all", "hi", op_all}, {"pos", "hii", op_pos}, {"child", "h", op_child}, {"leave", "hiiii", op_leave}, {"err", "h", op_err}};
-const int MC_NOPS = 5;
+// kids(parent, c): the property's own tie to cellToChildren: position i is the i-th element of cellToChildren(parent, c), for every i; the
+// list is requested with exactly cellToChildrenSize slots plus a canary
+static void op_kids(const McArg *a) {
+    uint64_t p = a[0].u;
+    int c = (int)a[1].i;
+    int64_t n = -1;
+    mc_trans(2);
+    MC_CHECK(cellToChildrenSize(p, c, &n) == 0 && n == spec_children_count(p, c - spec_res(p)), "cellToChildrenSize(%" PRIx64 ",%d) = %" PRId64, p, c, n);
+    uint64_t *L = calloc(n + 1, 8);
+    L[n] = 0xC0FFEE0DDEADBEEFull;
+    H3Error e = cellToChildren(p, c, L);
+    if (e || L[n] != 0xC0FFEE0DDEADBEEFull) {
+        mc_fail("cellToChildren(%" PRIx64 ",%d) returned %d%s", p, c, e, L[n] != 0xC0FFEE0DDEADBEEFull ? " and wrote beyond cellToChildrenSize slots" : "");
+        free(L);
+        return;
+    }
+    if (spec_is_pentagon(p)) mc_nontrivial();
+    for (int64_t i = 0; i < n; i++) {
+        uint64_t x = 0;
+        int64_t back = -1;
+        mc_trans(2);
+        H3Error e1 = childPosToCell(i, p, c, &x);
+        if (e1 || x != L[i]) {
+            mc_fail("childPosToCell(%" PRId64 ",%" PRIx64 ",%d) = %d,%" PRIx64 " but element %" PRId64 " of cellToChildren is %" PRIx64, i, p, c, e1, x, i, L[i]);
+            break;
+        }
+        H3Error e2 = cellToChildPos(L[i], spec_res(p), &back);
+        if (e2 || back != i) {
+            mc_fail("cellToChildPos(%" PRIx64 ",%d) = %d,%" PRId64 " but the cell is element %" PRId64 " of cellToChildren(%" PRIx64 ",%d)", L[i], spec_res(p), e2, back, i, p, c);
+            break;
+        }
+    }
+    free(L);
+    mc_states(n);
+}
+enum { OP_ALL, OP_POS, OP_CHILD, OP_LEAVE, OP_ERR, OP_KIDS };
+const McOp MC_OPS[] = {{"all", "hi", op_all}, {"pos", "hii", op_pos}, {"child", "h", op_child}, {"leave", "hiiii", op_leave}, {"err", "h", op_err}, {"kids", "hi", op_kids}};
+const int MC_NOPS = 6;
 
 static U64Vec g_full, g_fine;
 static int g_fulldepth, g_finedepth;
@@ -151,6 +186,33 @@ static void ph_full(void *u) {
         uint64_t h = g_full.v[i];
         mc_states(1);
         for (int c = spec_res(h); c <= spec_res(h) + g_fulldepth && c <= 15; c++) MC_RUN(OP_ALL, H(h), I(c));
+    }
+}
+// parents: all 12 pentagons and two hexagons (a pentagon's child, a plain one) at every resolution, every child resolution up to +6 (+7)
+static void ph_kids(void *u) {
+    uint64_t idx = 0;
+    int dmax = mc_thorough ? 7 : 6;
+    for (int r = 0; r <= 15; r++) {
+        uint64_t pent[12];
+        if (getPentagons(r, pent)) continue;
+        for (int k = 0; k < 14; k++) {
+            uint64_t p;
+            if (k < 12)
+                p = pent[k];
+            else {
+                int d[15] = {0};
+                if (r == 0) continue;
+                d[r - 1] = k == 12 ? 3 : 0;
+                d[0] = k == 12 ? d[0] : 5;
+                p = spec_mk(r, k == 12 ? 4 : 33, d);
+                if (!spec_valid(p) || spec_is_pentagon(p)) continue;
+            }
+            for (int c = r; c <= r + dmax && c <= 15; c++, idx++) {
+                if (!mc_mine(idx)) continue;
+                if (mc_expired()) return;
+                MC_RUN(OP_KIDS, H(p), I(c));
+            }
+        }
     }
 }
 static void ph_fine(void *u) {
@@ -204,5 +266,6 @@ int main(int argc, char **argv) {
              fullmax, g_fulldepth, mc_thorough ? 1 : 2, g_fine.n, g_finedepth);
     mc_phase("full resolutions", ph_full, NULL);
     mc_phase("fine families", ph_fine, NULL);
+    mc_phase("positions vs cellToChildren for pentagon and hexagon parents to depth 6 (7)", ph_kids, NULL);
     return mc_finish();
 }
